@@ -539,22 +539,30 @@ def marker_collision_cases(prefix, kinds=("ovl_mm", "ovl_sub", "ovl_pp")):
     rng = random.Random(5)
     cases = []
     for kind in kinds:
-        for variant in ("hides", "createdir", "listing"):
+        for variant in ("hides", "createdir", "listing", "otherway"):
             c = vfx.Case("%s_wocollide_%s_%s" % (prefix, kind, variant))
             g = build_config(c, kind, rng)
             c.cfg = g
             t = g.target
             lo, sub = g.prepop[0]
             base = sub[1:] + "/" if sub else ""
-            if variant != "createdir":
+            if variant == "otherway":
+                write_file(c, lo, base + "a", b"a file")
+            elif variant != "createdir":
                 c.op("createdir", vfx.ps(lo, base + "a"))
             c.op("createdirall", vfx.ps(lo, base + "a_wo"))
             write_file(c, lo, base + "a_wo/x", b"x")
             write_file(c, lo, base + "a_wo/y", b"y")
             c.op("snap", t)
             c.first_snap = c.nops - 1
+            if variant == "otherway":
+                # the marker FILE of /a stands where the marker DIRECTORY of /a_wo/* has to be
+                c.op("removefile", vfx.ps(t, "a"))
+                c.op("readdir", vfx.ps(t, "a_wo"))
             c.op("removefile", vfx.ps(t, "a_wo/x"))
-            if variant == "hides":
+            if variant == "otherway":
+                c.op("exists", vfx.ps(t, "a_wo/x"))
+            elif variant == "hides":
                 c.op("exists", vfx.ps(t, "a"))
                 c.op("metadata", vfx.ps(t, "a"))
             elif variant == "createdir":
